@@ -139,11 +139,14 @@ def _str_diff(x, y, A, B, i, parent, field):
 
 
 def _list_diff(A, B, parent, field):
+    # where: only named for argument / definition lists (for children the changed kinds say enough, and
+    # naming the parent would split one mechanism over as many signatures as there are container kinds)
+    where = "" if field == "children" else "/in=%s-%s" % (parent, field)
     for i in range(max(len(A), len(B))):
         if i >= len(A):
-            return "extra-%s/in=%s-%s/after=%s" % (_k(B[i]), parent, field, _k(A[i - 1]) if i else "start")
+            return "extra-%s%s/after=%s" % (_k(B[i]), where, _k(A[i - 1]) if i else "start")
         if i >= len(B):
-            return "lost-%s/in=%s-%s/after=%s" % (_k(A[i]), parent, field, _k(A[i - 1]) if i else "start")
+            return "lost-%s%s/after=%s" % (_k(A[i]), where, _k(A[i - 1]) if i else "start")
         x, y = A[i], B[i]
         if x == y:
             continue
@@ -153,13 +156,13 @@ def _list_diff(A, B, parent, field):
         if sx and not sy:
             if y[0] == "PREFORMATTED":
                 return "text-layout-changed/next-to=" + _left(A, i, parent, field)
-            return "str->%s/in=%s-%s/after=%s" % (y[0], parent, field, _left(A, i, parent, field))
+            return "str->%s%s/after=%s" % (y[0], where, _left(A, i, parent, field))
         if sy and not sx:
             if y.strip() == "" and i + 1 < len(B) and not isinstance(B[i + 1], str) and B[i + 1][0] == "PREFORMATTED":
                 return "text-layout-changed/next-to=" + _left(A, i, parent, field)
-            return "%s->str/in=%s-%s" % (x[0], parent, field)
+            return "%s->str%s" % (x[0], where)
         if x[0] != y[0]:
-            return "%s->%s/in=%s-%s" % (x[0], y[0], parent, field)
+            return "%s->%s%s" % (x[0], y[0], where)
         return _node_diff(x, y)
     return None
 
